@@ -403,12 +403,12 @@ func runC09(p *Prog, r *Report) {
 	ruleDiv(p, r, []string{"font", "font/opentype", "font/opentype/tables", "font/cff", "font/cff/interpreter"}, reviewedDivs(), 5)
 	r.Explain = append(r.Explain, "R-COUNT: for every signed integer parameter that sizes a make in its function without a sign test there, every in-module call site passes an argument that is provably non-negative (conversion from an unsigned type, len/cap, constants, sums/products of those, a difference guarded by the comparison that makes it non-negative, or a parameter for which the same holds at all its call sites).")
 	ruleCount(p, r, []string{"font/opentype/tables", "font/opentype", "font/cff", "font"}, 10)
-	r.Explain = append(r.Explain, "R-GEN (P-LIN): in the five font-reading packages, every index, slice and binary.*.UintN access to a []byte follows from the length tests that dominate it — upper bounds and non-negative lower bounds — using linear facts only (failing edges of comparisons, loop invariants, lengths of made slices, quotients by constants, `read <= len(arg)` post-conditions and constant length preconditions checked at every call site, fields that neither the function nor its callees write, the interprocedural sign prover). Functions with an access that needs a non-linear or cross-function argument are listed, with the reason, in sa/rgen_tables.go and reported as not claimed.")
+	r.Explain = append(r.Explain, "R-GEN (P-LIN): in the five font-reading packages, every index, slice and binary.*.UintN access to a []byte follows from the length tests that dominate it — upper bounds and non-negative lower bounds — using linear facts only (failing edges of comparisons, loop invariants, lengths of made slices, quotients by constants, `read <= len(arg)` post-conditions and constant length preconditions checked at every call site, fields that neither the function nor its callees write, the interprocedural sign prover). Inside a reader — a function that takes a []byte parameter — the accesses to slices of every element type are obligations too (a reader fills arrays whose sizes come from the data). Functions with an access that needs a non-linear or cross-function argument are listed, with the reason, in sa/rgen_tables.go and reported as not claimed.")
 	rgenPk := map[string]bool{}
 	for _, k := range []string{"font/opentype/tables", "font/cff", "font/opentype", "font", "font/cff/interpreter"} {
 		rgenPk[p.pkgPath(k)] = true
 	}
-	ruleGen(p, r, "R-GEN", func(f *ssa.Function) bool { return fnPkg(f) != nil && rgenPk[fnPkg(f).Path()] }, rgenNotClaimed, 300)
+	ruleGenReaders(p, r, "R-GEN", func(f *ssa.Function) bool { return fnPkg(f) != nil && rgenPk[fnPkg(f).Path()] }, rgenNotClaimed, 300)
 	r.Explain = append(r.Explain, "R-IDX (regression rule over accesses to slices of ANY element type in the hand-written code of the five font packages): each access key (function / indexed field) of the frozen set sa/ridx_tables.go — the accesses whose bounds P-LIN derived from the function's own dominating tests on the pinned tree — is still derivable. Accesses that are safe because of invariants established elsewhere (sanitizers, parallel arrays) are outside the set and decide nothing.")
 	ruleIdx(p, r, "R-IDX", []string{"font/opentype/tables", "font/cff", "font/opentype", "font", "font/cff/interpreter"}, ridxFont, 80)
 	r.Assumptions = append(r.Assumptions,
